@@ -21,7 +21,7 @@ EXPLANATION = (
     "(N-1,N-2) at the last, (i+1,i-1) inside; the write-effect summaries of computeAbsCurv and estimate_speed "
     "contain no position, timestamp or observation-list write.")
 ASSUMPTIONS = ["distance2DTo is the planimetric distance (obs_coords), timestamps subtract to elapsed seconds (C03)"]
-TECHNIQUE = "abstract interpretation of computeAbsCurv / estimate_speed / Integrator over the repository's Track, ENUCoords and ObsTime classes by the checker's AST interpreter on thirteen configuration classes of tracks (repeated positions and timestamps, sub-millisecond legs, 1 ms sampling, heights, backward timestamps, midnight), against planimetric distances and elapsed times computed by the checker (bounded case domain); wiring rule (F5); write-effect summaries (F1)"
+TECHNIQUE = "abstract interpretation of computeAbsCurv / estimate_speed / Integrator over the repository's Track, ENUCoords and ObsTime classes by the checker's AST interpreter on thirteen configuration classes of tracks (repeated positions and timestamps, sub-millisecond legs, 1 ms sampling, heights, backward timestamps, midnight; five classes again with numpy-scalar coordinates and seconds), against planimetric distances and elapsed times computed by the checker (bounded case domain); wiring rule (F5); write-effect summaries (F1)"
 
 
 def vr(v):
